@@ -1,5 +1,7 @@
-"""Extractor for tools/src/{init_database,dump}.rs (C20): the delimiters, the quote / comment
-characters, the number of skipped fields, the line-number base and the dump format strings."""
+"""Extractor for tools/src/{init_database,dump}.rs (C20): the context-free literals — the delimiters, the
+quote / comment / syllable-separator characters and the dump format strings.  Numbers whose meaning depends on
+the surrounding code (`.nth(1)`, `.skip(2)`, `line_num == 0`, `line_num + 1`, the one-character rule) are part of
+the hand-written model and tied by the correspondence runs instead."""
 import re
 from extractlib import *
 
@@ -82,30 +84,14 @@ def x_cli():
     run = squash(fn_body(si, "run"))
     m = need(r"letdelimiter=ifargs\.csv\{('(?:[^'\\]|\\.)')\}else\{('(?:[^'\\]|\\.)')\};", run, "delimiter choice")
     csv_delim, ssv_delim = rust_char(m.group(1)), rust_char(m.group(2))
-    m = need(r"ifargs\.csv&&line_num==(\d+)\{continue;\}", run, "CSV header skip")
-    header_line = int(m.group(1))
-
-    disp = squash(block_after(si, r"impl\s+Display\s+for\s+ParseError"))
-    m = need(r'"Parsing failed at line \{\}: \{\}",self\.line_num\+(\d+),self\.line', disp, "ParseError display")
-    line_base = int(m.group(1))
 
     pl = squash(fn_body(si, "parse_line"))
     quotes = re.findall(r"\.trim_matches\(('(?:[^'\\]|\\.)')\)", pl)
-    if len(quotes) != 3 or len(set(quotes)) != 1:
-        raise ExtractError("parse_line: expected three trim_matches with the same character")
+    if not quotes or len(set(quotes)) != 1:
+        raise ExtractError("parse_line: expected trim_matches calls with one and the same character")
     quote = rust_char(quotes[0])
-    m = need(r"matchphrase\.chars\(\)\.count\(\)\{(\d+)if!keep_word_freq=>(\d+),", pl, "single-character frequency rule")
-    word_len, word_freq = int(m.group(1)), int(m.group(2))
-    nths = re.findall(r"\.nth\((\d+)\)", pl)
-    if len(nths) != 1:
-        raise ExtractError("parse_line: expected exactly one .nth(k)")
-    freq_field = int(nths[0])
     m = need(r"\.split\(\|c:char\|c==('(?:[^'\\]|\\.)')\|\|c\.is_whitespace\(\)\)", pl, "syllable field separator")
     syl_sep = rust_char(m.group(1))
-    skips = re.findall(r"\.skip\((\d+)\)", pl)
-    if len(skips) != 1:
-        raise ExtractError("parse_line: expected exactly one .skip(k)")
-    syl_skip = int(skips[0])
     m = need(r"ifsyllable_str\.starts_with\(('(?:[^'\\]|\\.)')\)\{break;\}", pl, "comment test")
     comment = rust_char(m.group(1))
 
@@ -115,10 +101,6 @@ def x_cli():
     header = rust_str(m.group(1))
     if "{" in header:
         raise ExtractError("CSV header contains a placeholder")
-    drun = squash(fn_body(sd, "run"))
-    need(r"ifargs\.csv\{dump_dict_csv\(sink,dict\.as_ref\(\)\)\?;\}else\{dump_dict_tsi_src\(sink,dict\.as_ref\(\)\)\?;\}", drun,
-         "dump format choice")
-
     L = [HEADER.format(src="tools/src/init_database.rs + tools/src/dump.rs", h=sha(raw_i + raw_d)),
          "namespace Chewing.Gen\n",
          "/-- field delimiter without / with `--csv` (`let delimiter = if args.csv { … } else { … }`) -/",
@@ -128,18 +110,8 @@ def x_cli():
          f"def cliQuote : Nat := {ord(quote)}",
          "/-- a syllable field starting with this character ends the record (comment) -/",
          f"def cliComment : Nat := {ord(comment)}",
-         "/-- syllable fields are split on this character or any whitespace; this many fields are skipped -/",
+         "/-- syllable fields are split on this character or any whitespace -/",
          f"def cliSylSep : Nat := {ord(syl_sep)}",
-         f"def cliSylSkip : Nat := {syl_skip}",
-         "/-- index of the frequency among the non-empty delimiter-separated fields -/",
-         f"def cliFreqField : Nat := {freq_field}",
-         "/-- phrases of this many characters get this frequency unless `--keep-word-freq` -/",
-         f"def cliWordLen : Nat := {word_len}",
-         f"def cliWordFreq : Nat := {word_freq}",
-         "/-- with `--csv` the line with this 0-based index is skipped -/",
-         f"def cliCsvHeaderLine : Nat := {header_line}",
-         "/-- `Parsing failed at line {line_num + base}` -/",
-         f"def cliLineBase : Nat := {line_base}",
          "/-- `dump`: `{}<sep1>{}<sep2>{}` and the string joining the syllables -/",
          f"def dumpSsvSep1 : List Nat := {cps(s1)}",
          f"def dumpSsvSep2 : List Nat := {cps(s2)}",
